@@ -101,6 +101,9 @@ def siteClass (a : Access) : SiteClass :=
   else if a.insideOnce then .onceGuarded
   else .immutableAfterSetup      -- shared state, written without any guard: forbidden while serving
 
+-- the regenerated footprint may be long (a rewrite that adds counters, hooks, helpers): the size of the table must
+-- never be what breaks the obligation
+set_option maxRecDepth 200000 in
 /-- C05 tie: every write that serving a request can perform (as extracted from the CURRENT source) goes to
     a request-local object, or sits inside the `sync.Once.Do` closure of the object it writes, or is a
     sync/atomic operation.  Replacing a Once by a nil check, appending to `f.handlers` in `createContext`,
@@ -108,16 +111,25 @@ def siteClass (a : Access) : SiteClass :=
 theorem footprint_disciplined : ∀ a ∈ sharedWrites, a.requestLocal ∨ a.insideOnce ∨ a.atomic := by
   decide
 
+-- the regenerated footprint may be long (a rewrite that adds counters, hooks, helpers): the size of the table must
+-- never be what breaks the obligation
+set_option maxRecDepth 200000 in
 /-- the same in the vocabulary of the discipline: no write site targets an immutable-after-setup location -/
 theorem footprint_never_writes_immutable : ∀ a ∈ sharedWrites, siteClass a ≠ .immutableAfterSetup := by
   decide
 
+-- the regenerated footprint may be long (a rewrite that adds counters, hooks, helpers): the size of the table must
+-- never be what breaks the obligation
+set_option maxRecDepth 200000 in
 /-- the footprint is not empty: the extraction did reach the serving code (the tie is not vacuous).  What KINDS of
     guarded writes exist today (once-guarded string caches, the atomic status) is not fixed here — a
     behaviour-preserving refactoring may remove a cache or guard the status differently. -/
 theorem footprint_nonvacuous : sharedWrites.length > 10 ∧ servePhaseFunctions > 30 := by
   decide
 
+-- the regenerated footprint may be long (a rewrite that adds counters, hooks, helpers): the size of the table must
+-- never be what breaks the obligation
+set_option maxRecDepth 200000 in
 /-- reads of once-guarded fields happen inside the Do closure or after `x.once.Do(..)` on the same object
     (the `onceRead` clause of the discipline, on the extracted read sites) -/
 theorem once_reads_after_do : ∀ r ∈ onceGuardedReads, r.afterDo = true := by
@@ -194,6 +206,9 @@ def synchronisedContainers : List String := ["(*sync.Map).", "(*sync.Pool)."]
 
 def callIsSynchronised (callee : String) : Bool := synchronisedContainers.any (fun p => callPrefix p callee)
 
+-- the regenerated footprint may be long (a rewrite that adds counters, hooks, helpers): the size of the table must
+-- never be what breaks the obligation
+set_option maxRecDepth 200000 in
 /-- every library call that serving makes on definitely-shared objects is documented as safe for concurrent use — by
     name, as a member of a read-only family, or as a method of a synchronised container; any other stateful one (a shared
     `bytes.Buffer`, a `strings.Builder`, a mutex whose critical section the extraction cannot see) breaks the build until
